@@ -301,10 +301,10 @@ func (api *API) mapEncodeStructFields(
 			if !ok {
 				return ierrors.Errorf("failed to cast inlined struct field %s to map", sField.name)
 			}
-			// an optional member that is there but contributes no key at all (everything in it is left out in turn) could
-			// not be told apart from the member left out: it would be read back as nil
-			if sField.settings.isOptional && len(castedEleOut.Keys()) == 0 {
-				return ierrors.Errorf("inlined optional struct field %s has no entry in the map form, it can't be told apart from nil", sField.name)
+			// a member that can be left out (optional, omitempty) and is there but contributes no key at all (everything in
+			// it is left out in turn) could not be told apart from the member left out: it would be read back as nil
+			if (sField.settings.isOptional || sField.settings.omitEmpty) && len(castedEleOut.Keys()) == 0 {
+				return ierrors.Errorf("inlined struct field %s has no entry in the map form, it can't be told apart from the field left out", sField.name)
 			}
 
 			// the keys that the member contributes by its type are part of keysOfType already (see collectStructKeys);
